@@ -1458,6 +1458,12 @@ def m_deref_generic(ex, st, fr, path, args, m):
     return NotImplemented
 
 
+@model(r"^(?:std::cell::|core::cell::)?(Ref|RefMut)::<(.*)>::map::<")
+def m_cell_ref_map(ex, st, fr, path, args, m):
+    """cell::Ref / RefMut guards are represented by the reference they deref to; map applies the projection closure"""
+    return ex.call_closure(st, fr, args[1], [args[0]])
+
+
 @model(r"^<(.*) as (?:std::convert::)?AsRef<(.*)>>::as_ref$|^<(.*) as (?:std::borrow::)?Borrow<(.*)>>::borrow$")
 def m_asref(ex, st, fr, path, args, m):
     r = args[0]
@@ -1798,13 +1804,16 @@ def m_sort_by(ex, st, fr, path, args, m):
     itself is trusted; only the comparator is executed."""
     el, lo, hi = seq_of(args[0])
     items = list(el[lo:hi])
+    unstable = m.group(2) == "sort_unstable_by"
     out = []
     for x in items:
         pos = len(out)
         for k in range(len(out)):
-            # strictly-less moves before; equal stays after (stability)
+            # sort_by: strictly-less moves before; equal stays after (stability).
+            # sort_unstable_by: the contract allows any order among equal elements; the model picks the *reversed* order of
+            # ties (a legal outcome), so that code which needs stability but calls the unstable sort is visible.
             o = ex.call_closure(st, fr, args[1], [Ref(Cell(x)), Ref(Cell(out[k]))])
-            if o.variant == "Less":
+            if o.variant == "Less" or (unstable and o.variant == "Equal"):
                 pos = k
                 break
         out.insert(pos, x)
